@@ -454,6 +454,9 @@ def exec_op(cd: Coder, seq: Sequence, op: dict, maps: list, desc: dict):
     if k == "config_detmap":
         seq.config_detuning_map(maps[op["map"]], op["dmm_id"])
         return None, desc
+    if k == "config_slm":
+        seq.config_slm_mask(op["qubits"], op["dmm_id"])
+        return None, desc
     if k == "set_mag":
         seq.set_magnetic_field(op["bx"], op["by"], op["bz"])
         return None, desc
